@@ -72,6 +72,17 @@ package db
 //@   ensures @plain !sessioned(pfx) ==> result == key
 //@   ensures @backing !sessioned(pfx) || result == nil || extends(result, bd.baseDb.sid) || fresh(result)
 
+// FromSessionKey: a storage key is taken for this session's only if it starts
+// with the whole stored session prefix (id and separator), which is then cut
+// off; any other key is refused (what every backend's listing relies on: C11).
+//@ func (*DbBase).FromSessionKey
+//@   serves C11
+//@   requires baseOk(bd)
+//@   ensures @nosession len(bd.baseDb.sid) == 0 ==> result1 == nil && result0 == key
+//@   ensures[C11] @own result1 == nil && len(bd.baseDb.sid) > 0 ==> len(key) >= len(bd.baseDb.sid)
+//@     && str(key[:min(len(bd.baseDb.sid), len(key))]) == str(bd.baseDb.sid) && result0 == key[len(bd.baseDb.sid):]
+//@   ensures[C11] @foreign len(bd.baseDb.sid) > 0 && !(len(key) >= len(bd.baseDb.sid) && str(key[:min(len(bd.baseDb.sid), len(key))]) == str(bd.baseDb.sid)) ==> result1 != nil
+
 //@ func ToDbKey
 //@   serves C10, C11
 //@   modifies b[len(b):cap(b)]
